@@ -157,6 +157,44 @@ def sec_lattices(rep, tier):
     rep.sample({"heavyness cells": len(cells), "FONLL cells": len(fon), "positivity-charge cells": len(pc_)})
 
 
+def sec_poscharge_contract(rep):
+    """The contract the lattice lemmas assume of the REAL coupling object: with NCPositivityCharge = p
+    get_weight / get_fl11_weight return [|pid| = p] times their unrestricted value (and 'all' /
+    None are the same) -- relational, so it needs no electroweak oracle."""
+    from yadism.coefficient_functions.coupling_constants import CouplingConstants as CC
+    from .c02 import ew_pre
+
+    rep.under_contract(CC.get_weight, CC.get_fl11_weight)
+    sy = H.Sy()
+    pre = ew_pre(sy)
+    names = {"down": 1, "up": 2, "strange": 3, "charm": 4, "bottom": 5, "top": 6}
+    for process in ("EM", "NC"):
+        for proj in ("electron", "positron", "neutrino"):
+            for ct in H.COUPLING_TYPES:
+                rep.cases += 1
+
+                def case(sy, process=process, proj=proj, ct=ct):
+                    free = H.coupling_constants(sy, process, proj, None)
+                    allc = H.coupling_constants(sy, process, proj, "all")
+                    out = []
+                    for q in range(1, 7):
+                        for s_ in (1, -1):
+                            w = free.get_weight(s_ * q, sy.Q2, ct)
+                            out.append((f"get_weight[{s_*q}]: 'all' = None", allc.get_weight(s_ * q, sy.Q2, ct), w))
+                            for nm, p in names.items():
+                                r = H.coupling_constants(sy, process, proj, nm)
+                                out.append((f"get_weight[{s_*q}] restricted to {nm}", r.get_weight(s_ * q, sy.Q2, ct), w if p == q else 0))
+                            for nf in (3, 6):
+                                w11 = free.get_fl11_weight(s_ * q, sy.Q2, nf, ct)
+                                out.append((f"get_fl11_weight[{s_*q},nf={nf}]: 'all' = None", allc.get_fl11_weight(s_ * q, sy.Q2, nf, ct), w11))
+                                for nm, p in names.items():
+                                    r = H.coupling_constants(sy, process, proj, nm)
+                                    out.append((f"get_fl11_weight[{s_*q},nf={nf}] restricted to {nm}", r.get_fl11_weight(s_ * q, sy.Q2, nf, ct), w11 if p == q else 0))
+                    return out
+
+                rep.check(f"C07/poscharge-contract/{process}/{proj}/{ct}", case, sy, pre)
+
+
 def sec_kernel(rep):
     """Kernel: arithmetic and order window."""
     from yadism.coefficient_functions.kernels import Kernel
@@ -231,7 +269,7 @@ def run(rep, tier, seed, only=None):
         "cells whose dispatch raises are C16's matter and are skipped here (counted)",
     )
     rep.stub("CouplingConstants -> WStub", "eko nf_default -> enumerated nf", "LeProHQ/adani/splines never evaluated (only kernels are collected)")
-    for nm, f in (("lattices", lambda r: sec_lattices(r, tier)), ("kernel", sec_kernel), ("readset", sec_readset)):
+    for nm, f in (("lattices", lambda r: sec_lattices(r, tier)), ("poscharge", sec_poscharge_contract), ("kernel", sec_kernel), ("readset", sec_readset)):
         if only and only not in nm:
             continue
         rep.add(guarded(f"C07/{nm}", lambda f=f: (f(rep), [])[1]))
